@@ -37,6 +37,13 @@ def main():
         mod = importlib.import_module(pid.lower())
         mod.run(rep, a.repo, tier)
     except AnalysisBroken as e:
+        if any(not i['ok'] for i in rep.instances):
+            # violations found before the analysis broke are reported; the run still counts as broken unless one of them is
+            # a violation that the known-findings file does not list
+            rep.defer_broken(e)
+            rc = rep.finish()
+            if rc == 1:
+                return 1
         print('ANALYSIS-BROKEN property=%s %s' % (pid, e))
         rep.write_evidence({}, [], [], [str(e)])
         return 2
